@@ -581,7 +581,8 @@ def allRunes (p : Nat → Bool) (lit : Input) : Nat → Nat → Bool
 /-- `isValidIdentifierToken` -/
 def validIdentTok (cfg : Cfg) (t : Tok) : Bool :=
   let lit : Input := (t.lit.map (·.toUInt8)).toArray
-  if lit.size == 0 then false
+  if t.ty == cfg.tHTML then false          -- an HTML part of a template is never an identifier
+  else if lit.size == 0 then false
   else
     let (r0, _) := decodeRune lit 0
     if !cfg.isLetter r0 && r0 != 95 && r0 < 0x4e00 then false
@@ -680,9 +681,15 @@ def tokenizeRaw (cfg : Cfg) (inp : Input) : Mode → Res (List Tok)
 
 def startsWith (inp : Input) (lit : List Nat) : Bool := lit.length ≤ inp.size && matchesAt inp 0 lit
 
+/-- `lexer.ShiftTokens` for one token: back to its place in the whole file -/
+def shiftTok (off lines : Nat) (t : Tok) : Tok :=
+  { t with start := t.start + off, stop := t.stop + off, line := t.line + lines }
+
 /-- `Lexer.Tokenize` / `Lexer.TokenizeTemplate` including the shebang and DOCTYPE dispatch.
-    For a shebang source the result is relative to the input after the first line
-    (`shift` = number of bytes dropped), as the Go code does it. -/
+    For a shebang source the rest of the file is tokenized in template mode and the tokens are
+    shifted back by the bytes and the one line that were skipped (`ShiftTokens`), so positions
+    are relative to the whole file. The second component (a shift the harness would have to
+    apply) is always 0 since that repair; it is kept for the driver protocol. -/
 def tokenize (cfg : Cfg) (inp : Input) (mode : Mode) : Out × Nat :=
   match mode with
   | .template =>
@@ -696,8 +703,8 @@ def tokenize (cfg : Cfg) (inp : Input) (mode : Mode) : Out × Nat :=
       | some nl =>
         let rest : Input := inp.extract (nl+1) inp.size
         match tokenizeRaw cfg rest .template with
-        | .ok raw => (.tokens (process cfg raw), nl+1)
-        | .crash w => (.crash w, nl+1)
+        | .ok raw => (.tokens ((process cfg raw).map (shiftTok (nl+1) 1)), 0)
+        | .crash w => (.crash w, 0)
     else if startsWith inp [60, 33, 68, 79, 67, 84, 89, 80, 69] then (.html, 0)
     else
       match tokenizeRaw cfg inp .script with
